@@ -875,6 +875,11 @@ def _const_bounded(tr, node, depth=0):
         if lf[0] in ("ref", "deref", "cast"):
             if _const_bounded(tr, lf[2] if lf[0] == "cast" else lf[1], depth + 1):
                 continue
+        # arithmetic on constants written out (`86400 * 365 * 30` with overflow checks is a chain of checked operations)
+        if lf[0] == "field" and peel(lf[1])[0] == "binop":
+            lf = peel(lf[1])
+        if lf[0] == "binop" and _const_bounded(tr, lf[2], depth + 1) and _const_bounded(tr, lf[3], depth + 1):
+            continue
         return False
     return True
 
@@ -898,6 +903,19 @@ def check_no_panicking_time_arith(facts, tr, rep, rule, bodies):
             ops = [tr.expand(tr.operand(b, a, c.loc), upvars=True) for a in c.args]
             # the Instant side is a clock reading; the Duration side decides
             unbounded = [o for o in ops if not _const_bounded(tr, o)]
+            # `start + x.duration_since(start)` is max(x, start): it cannot overflow whatever the two instants are
+            if unbounded and c.trait.endswith(("Add", "AddAssign")) and len(c.args) == 2:
+                def _fld(n_):
+                    n_ = peel(n_)
+                    while n_[0] in ("ref", "deref"):
+                        n_ = peel(n_[1])
+                    return (n_[2], n_[3]) if n_[0] == "field" else None
+                base = _fld(ops[0])
+                dn = peel(tr.expand(tr.operand(b, c.args[1], c.loc), upvars=True, params=True))
+                alts = [peel(x) for x in leaves(dn)]
+                if base is not None and alts and all(x[0] == "call" and tr.call_of(x).def_ in _SINCE and len(tr.call_of(x).args) == 2 and
+                                                     _fld(tr.expand(tr.operand(tr.call_of(x).g.b, tr.call_of(x).args[1], tr.call_of(x).loc))) == base for x in alts):
+                    unbounded = []
             rep.ob(rule, skey(b, "time-op#%d" % ordinal(graph(b), c)), not unbounded, c.where(),
                    "`%s` is applied to values bounded by constants" % c.path.split("::")[-1] if not unbounded else
                    "`%s` panics on overflow and its operand %s is not bounded by a constant: a very long configured or per-request "
@@ -1089,6 +1107,13 @@ def check_stale_reads(facts, tr, rep, rule, body, adt_def):
                         # update (returned, stored, used where the update may or may not have happened)
                         if ui < len(g.stmts(ub)) and (wb == ub or g.node_dominates(wb, ub)) and _only_compared(g, body, ub, ui):
                             continue
+                        # a recorded decision (`let refreshed = elapsed >= period;`) is meant to describe the state before
+                        if body.local_ty(l)["s"] == "bool":
+                            continue
+                        # the write and the use sit on opposite sides of the same recorded decision
+                        # (`if refreshed { self.start = now } .. if refreshed { period } else { period - elapsed }`)
+                        if _opposite_flags(tr, g, body, wb, ub):
+                            continue
                         if (key, wb, wj) in seen_pairs:
                             continue
                         seen_pairs.add((key, wb, wj))
@@ -1097,6 +1122,41 @@ def check_stale_reads(facts, tr, rep, rule, body, adt_def):
                                "`%s` was computed from self.%s (%s) and is used here after self.%s was overwritten (%s): it describes the state before "
                                "the update" % (body.local_name(l) or "_%d" % l, f, g.where(db, di), f, g.where(wb, wj)))
     return n
+
+
+def _flag_edges(tr, g, body, bb):
+    """{(flag local, its single reaching definition): label} for the dominating bool edges of bb that test a local"""
+    out = {}
+    for e in dominating_edges(tr, body, bb):
+        if e["kind"] != "bool":
+            continue
+        pl = e["sw"].cond.get("copy") or e["sw"].cond.get("move") if isinstance(e["sw"].cond, dict) else None
+        if pl is None or pl["p"]:
+            continue
+        l, loc = pl["l"], (e["bb"], len(g.stmts(e["bb"])))
+        for _hop in range(3):
+            ds = g.reaching(l, loc)
+            if len(ds) != 1:
+                l = None
+                break
+            d = ds[0]
+            if body.locals[l].get("user") or d[3] != "assign" or d[5]["k"] != "use":
+                break
+            src = d[5]["op"].get("copy") or d[5]["op"].get("move")
+            if src is None or src["p"]:
+                break
+            l, loc = src["l"], (d[1], d[2])
+        if l is None:
+            continue
+        ds = g.reaching(l, loc)
+        if len(ds) == 1:
+            out[(l, ds[0][1], ds[0][2])] = e["label"]
+    return out
+
+
+def _opposite_flags(tr, g, body, bb1, bb2):
+    f1, f2 = _flag_edges(tr, g, body, bb1), _flag_edges(tr, g, body, bb2)
+    return any(k in f2 and f2[k] != v for k, v in f1.items())
 
 
 def _only_compared(g, body, bb, idx, depth=0):
